@@ -37,6 +37,7 @@ struct ApiOpts {
 	bool portedTangentBlock = false; // non-Oblivion versions: shapes carry an Oblivion-style "Tangent space (binormal & tangent vectors)" NiBinaryExtraData (meshes ported from Oblivion keep it)
 	bool collisionVolumes = false;   // every shape gets a NiCollisionData with a bounding volume of a rotating kind (sphere, box, capsule, half-space, union of two)
 	bool wideColors = false;         // vertex colour channels outside [0,1] as well (floats in LE files are not range checked; byte storage clamps)
+	bool foreignBinaryExtraFirst = false;   // every shape gets a NiBinaryExtraData of another name ("Editor marker data") before any tangent block exists, so it is listed in front of it
 	bool tangents = false;           // CalcTangentsForShape on every shape that has normals and UVs (OB: creates the tangent-space extra data on save)
 	bool texturing = false;          // OB/FO3: shapes also get a NiTexturingProperty with source textures in a random subset of the ten slots
 	bool modelSpace = false;         // SK/SSE: shaders use model-space normals (cloning / conversion drop normals and tangents then)
@@ -82,6 +83,8 @@ NiShape* toStripsSameTriangles(NifFile& nif, NiShape* shape, Rng& rng);
 // of every SSE partition (Has Faces = 0), as files written by other tools have it.  Returns the number of partitions changed; the model has to
 // be saved and loaded again to obtain the state a reader of such a file is in.
 int dropPartitionFaces(NifFile& nif);
+// Adds a NiLines shape (line loop over 4..9 points, NiLinesData, no triangles, no shader) below the root, stored behind the existing blocks.
+NiShape* addLinesShape(NifFile& nif, const std::string& name, Rng& rng);
 // Rotates the corners of the triangles stored in mapped-index partitions (OB/FO3/SK) by a random amount each: the same oriented
 // triangles, but not in the smallest-index-first order the library's own rebuild writes (game assets and other exporters do not
 // normalise). Cached true triangles / labels are dropped. Returns the number of partitions changed.
